@@ -61,7 +61,7 @@ class SimDevice:
         self.handshakes = 0
         self.requests = 0
         self.extra_creds: dict[bytes, bytes] = {}   # further token -> key registrations
-        self.unknown_token = "error"     # or "silent"
+        self.unknown_token = "error"     # or "silent", or "close" (error packet, then the device hangs up)
         self.lossy = None            # optional f(conn, ptype) -> True: packet is lost before the device sees it
         self.on_enc_request = None   # optional takeover of verified type-6 packets: f(conn, V3Packet, entry)
         # wire log: one entry per client packet
@@ -174,6 +174,11 @@ class SimDevice:
                 # a device either rejects an unknown token with an error packet or simply does not answer
                 reply = [] if self.unknown_token == "silent" else [rc.v3_build_plain(rc.T_ERROR, p.counter, b"")]
                 self._dispatch(conn, "handshake", reply, p.body, False, data)
+                if self.unknown_token == "close":
+                    # the hang-up travels right behind the error packet (same instant, after it): the client sees a closed
+                    # connection before it can act on the rejection.  A hang-up that lands in the middle of the client's NEXT
+                    # handshake would be a device-side fault during an exchange, which is C08's subject, not C19's.
+                    conn.peer_close(LATENCY)
             return
         if ptype == rc.T_ENC_REQ:
             if st["session_key"] is None:
